@@ -47,6 +47,22 @@ func init() {
 // IsWorker reports whether this process is a scenario worker.
 func IsWorker() bool { return os.Getenv("H1_WORKER") != "" }
 
+// WorkerKeeps returns the predicate "this worker process will be asked to run scenario idx" (so that a worker
+// only needs to materialise its own share of a large enumeration).
+func WorkerKeeps() func(idx int) bool {
+	spec := strings.Split(os.Getenv("H1_WORKER"), "/")
+	if spec[0] == "solo" {
+		k, _ := strconv.Atoi(spec[1])
+		return func(idx int) bool { return idx == k }
+	}
+	i, _ := strconv.Atoi(spec[0])
+	n, _ := strconv.Atoi(spec[1])
+	if n <= 0 {
+		return func(int) bool { return true }
+	}
+	return func(idx int) bool { return idx%n == i }
+}
+
 type logLine struct {
 	S *int        `json:"s,omitempty"` // started
 	D *int        `json:"d,omitempty"` // done
